@@ -594,6 +594,10 @@ def r16_14(ctx, rule='R16.14'):
     for cname in ('Queue', 'JoinableQueue'):
         fi = _find(ctx, 'queues:%s.put' % cname)
         cfg = fi.cfg
+        if cname != 'Queue' and q.nodes_calling(fi, lambda t: t in ('Queue.put', 'super().put', 'super(JoinableQueue, self).put')):
+            ctx.ob(rule, '%s.put:no-refusal-between-acquire-and-append' % cname, True, fi, None,
+                   'delegates to Queue.put, which is examined')
+            continue
         got = q.outcome_edges(fi, lambda t: t.startswith('self._sem.acquire('), True)
         q.need(got, '%s.put does not test self._sem.acquire()' % cname)
         app = q.nodes_calling(fi, 'self._buffer.append')
@@ -901,6 +905,10 @@ def r16_16(ctx, rule='R16.16'):
     for cname in ('Queue', 'JoinableQueue'):
         fi = _find(ctx, 'queues:%s.put' % cname)
         cfg = fi.cfg
+        if cname != 'Queue' and q.nodes_calling(fi, lambda t: t in ('Queue.put', 'super().put', 'super(JoinableQueue, self).put')):
+            ctx.ob(rule, '%s.put:feeder-woken-after-the-append' % cname, True, fi, None, 'delegates to Queue.put')
+            ctx.ob(rule, '%s.put:feeder-started-when-there-is-none' % cname, True, fi, None, 'delegates to Queue.put')
+            continue
         app = q.nodes_calling(fi, 'self._buffer.append')
         q.need(app, '%s.put does not append to the buffer' % cname)
         nt = q.nodes_calling(fi, 'self._notempty.notify')
